@@ -93,11 +93,38 @@ func init() {
 	// its end; otherwise buckets still inside the retained window would be lost.
 	RegisterExtra("C61", func(c *Ctx) {
 		fn := "(*internal/timeseries.timeSeries).advance"
-		c.Has(fn, Calls("(time.Time).Add").ArgIs(1, "($r.levels[φi].size*$r.numBuckets)"))
+		// the far-enough test adds size*numBuckets (structure, not local names: the loop may be index- or range-based)
+		isFar := func(v ssa.Value) bool {
+			call, ok := v.(*ssa.Call)
+			if !ok || CalleeName(&call.Call) != "(time.Time).Add" || len(call.Call.Args) < 2 {
+				return false
+			}
+			t := Term(call.Call.Args[1])
+			return strings.HasSuffix(t, ".size*$r.numBuckets)") && strings.HasPrefix(t, "($r.levels[")
+		}
+		c.Has(fn, Calls("(time.Time).Add").Where("level.end + size*numBuckets", func(in ssaInstr) bool { return isFar(in.(ssa.Value)) }))
 		reset := Calls("(*internal/timeseries.timeSeries).resetObservation").Where("bulk reset of a level", func(in ssaInstr) bool {
 			return inRangeLoop(in)
 		})
-		c.Guard(fn, reset, "!Before(φ($0|$r.levels[φi].end),Add($r.levels[φi].end,($r.levels[φi].size*$r.numBuckets)))")
+		// every bulk reset is under !t.Before(level.end.Add(size*numBuckets))
+		f := c.MustFn(fn)
+		if f != nil {
+			sites := reset.F(c.P, f)
+			ok := len(sites) > 0
+			for _, in := range sites {
+				guarded := false
+				for _, fact := range FactsAtInstr(in) {
+					if fact.Atom.Kind != FALS {
+						continue
+					}
+					if bc, isCall := ifCondCall(fact.If); isCall && CalleeName(&bc.Call) == "(time.Time).Before" && len(bc.Call.Args) == 2 && isFar(bc.Call.Args[1]) {
+						guarded = true
+					}
+				}
+				ok = ok && guarded
+			}
+			c.Check(ok, "guard-before", fn+": a level is reset wholesale only when t is not before level.end + size*numBuckets", f.Pos(), fmt.Sprintf("%d site(s)", len(sites)), "a bulk reset is not guarded by the numBuckets-wide test")
+		}
 	})
 }
 
